@@ -1459,6 +1459,17 @@ package eval
 //@     invariant [partial-sum] (= $childrenCost (sumCosts (old (heap F_astNode.cost)) (arr (fld $root children)) (off (fld $root children)) (+ $rangeindex 1)))
 //@     invariant [nothing-written-yet] (= (heap F_astNode.cost) (old (heap F_astNode.cost)))
 
+// C16 / C06 — the reordering pass itself (recursive, by contract): the tree stays closed, every `if` keeps its operands,
+// nothing but costs and the ORDER of operand lists is written (the latter also a sweep obligation), no failure for any tree.
+//@ macro (REOTREE) (forall ((t Int)) (! (=> (inAst t) (let ((nd (fld (ref astNode t) node)))
+//@      (and (=> (= (KIND nd) 2) (is.string (fld nd value)))
+//@           (=> (and (= (KIND nd) 5) (= (fld nd value) (V_keyword "if"))) (>= (len (fld (ref astNode t) children)) 3))))) :pattern ((inAst t))))
+//@ func optimizeReordering C16 C06
+//@   requires [tree] (and (not (= $cc 0)) (inAst $root) (ASTCLOSED) (REOTREE))
+//@   ensures [tree-kept] (and (ASTCLOSED) (REOTREE))
+//@   loop 1 (rangeindex)
+//@     invariant [tree-kept] (and (ASTCLOSED) (REOTREE))
+
 //@ func optimizeReordering.$1 C16
 //@   requires [indices] (and (not (= $root 0)) (<= 0 $i) (< $i (len (fld $root children))) (<= 0 $j) (< $j (len (fld $root children))) (not (= (CHILD $root $i) 0)) (not (= (CHILD $root $j) 0)))
 //@   ensures [less-is-cost-order] (= $ret0 (< (select (heap F_astNode.cost) (CHILD $root $i)) (select (heap F_astNode.cost) (CHILD $root $j))))
